@@ -148,7 +148,7 @@ class RngSpace(Space):
     def __init__(self, tier):
         self.tier = tier
         allnames, _ = letter_names(tier)
-        self.gens = [n for n in allnames if n.startswith(("perlin", "generate_terrain"))]
+        self.gens = [n for n in allnames if n.startswith(("perlin", "generate_terrain", "terrain_", "natural_breaks_sample"))]
         self.pre = [("seed0", 0, 0), ("seed1+3draws", 1, 3), ("seed12345+100draws", 12345, 100), ("seed5", 5, 0)]
         self.name = "rng_prestates"
         self.size = len(self.gens) * len(self.pre)
